@@ -15,7 +15,7 @@ const verif::Info verif_info = {
     "{canonical,reversed} over 0, +-1, +-9, +-10, +-255, radix boundaries, min, max (+-1) of all 15 integer and character types, one typed ST::format call each; "
     "generated: 1..5 fields in random part order (never two digit-bearing parts glued, no contradictory flags), sequential and &N selection mixed, literals with {{ }} and lone }, "
     "non-ASCII scalars, 1..5 arguments of 32 types (all integer widths, char types, bool, narrow/wide C strings, ST::string, std strings and views), widths and precisions in "
-    "every relation to the natural length (<= 400), {c} on values inside and outside 0..10FFFF; 1 case in 16 deliberately produces ill-formed UTF-8 (checked through "
+    "every relation to the natural length (<= 400), {c} on integer values inside and outside 0..10FFFF (incl. 64-bit values that do not fit 32 bits; not on char8_t, which is a UTF-8 code unit copied verbatim); 1 case in 16 deliberately produces ill-formed UTF-8 (checked through "
     "ST::format(assume_valid,..)). Oracle: ref/ref_format.h interpreter (std::to_chars digits). Non-trivial: a field in which >= 2 of {sign, prefix, padding, precision cut} "
     "interact, or >= 2 fields of which one is selected by &N; distinct by decoded-case hash.",
     true, "exploration"};
@@ -133,12 +133,21 @@ int verif_case(const uint8_t *data, size_t size, Case &c) {
     uint8_t first = size ? data[0] : 0;
     if (first == 0xFF) {                              // directed: one point of the integer sweep
         r.u8();
-        SweepPoint p;
-        int *q = &p.ty;
+        int q[9];
         for (int i = 0; i < 9; i++) q[i] = (int)(r.u8() % kSweepDims[i]);
+        SweepPoint p = {q[0], q[1], q[2], q[3], q[4], q[5], q[6], q[7], q[8]};
         c.label("directed-sweep-point");
         if (!sweep_build(p, fmt, args, rargs)) return verif::CASE_DISCARD;
         direct = true;
+    } else if (first == 0xFE) {                       // directed: "{c}" of one integer, no exclusions (regression inputs)
+        r.u8();
+        fg::Ty t = kSweepTypes[r.u8() % kNumSweepTypes];
+        if (t == fg::T_CHAR8) t = fg::T_UCHAR;
+        args.resize(1); args[0].set_int(t, r.bits64());
+        rargs.assign(1, args[0].to_ref());
+        fmt = "{c}";
+        direct = true;
+        c.label("directed-char-class");
     } else {
         fg::Call k;
         fg::Options opt;
@@ -178,7 +187,8 @@ long verif_enumerate(int shard, int nshards, int tier, verif::EnumReport &r) {
         for (p.cls = 0; p.cls < 6; p.cls++)
         for (p.order = 0; p.order < 2; p.order++) {
             if (!sweep_build(p, fmt, args, rargs)) continue;
-            cur[0] = 0xFF; const int *q = &p.ty; for (int i = 0; i < 9; i++) cur[1 + i] = (uint8_t)q[i];
+            const int q[9] = {p.ty, p.vi, p.align, p.padmode, p.widthmode, p.hash, p.plus, p.cls, p.order};
+            cur[0] = 0xFF; for (int i = 0; i < 9; i++) cur[1 + i] = (uint8_t)q[i];
             verif::set_current(cur, sizeof cur);
             ref::Result want = ref::interpret(fmt, rargs);
             if (want.kind != ref::OK) continue;
